@@ -9,6 +9,12 @@ Ops == {[op |-> "set", k |-> k, raw |-> r] : k \in Keys, r \in Raws}
 SeqsOf(n) == UNION {[1..m -> Ops] : m \in 1..n}
 OpSeqs == IF Sample = 0 THEN SeqsOf(MaxOps) ELSE RandomSubset(Sample, [1..MaxOps -> Ops]) \cup SeqsOf(1)
 ASSUME \A s \in OpSeqs : PrintT(ToJson([kind |-> "ops", ops |-> s]))
+(* a key that has a built-in default: override it, then set it back to the default's value *)
+BackToDefault == {<<[op |-> "set", k |-> "verbose", raw |-> r], [op |-> "set", k |-> "verbose", raw |-> "rinfo"], [op |-> "get", k |-> "verbose"]>> : r \in {"rdebug", "r42"}}
+           \cup {<<[op |-> "set", k |-> "clean_logs", raw |-> "rno"], [op |-> "set", k |-> "clean_logs", raw |-> r], [op |-> "get", k |-> "clean_logs"]>> : r \in {"ryes", "rtrue"}}
+           \cup {<<[op |-> "set", k |-> "use_spec_hashes", raw |-> "ryes"], [op |-> "set", k |-> "use_spec_hashes", raw |-> "rno"], [op |-> "get", k |-> "use_spec_hashes"]>>,
+                 <<[op |-> "set", k |-> "clean_logs", raw |-> "r0"], [op |-> "get", k |-> "clean_logs"], [op |-> "unset", k |-> "clean_logs"]>>}
+ASSUME \A s \in BackToDefault : PrintT(ToJson([kind |-> "ops", ops |-> s]))
 
 (* precedence and namespace scenarios *)
 Opt == {"none", "slurm", "sge"}
